@@ -972,8 +972,8 @@ class Run:
             return
         if o not in REMOVE_OPS and o != "restart":
             after = self.cache_keys()
-            if any(b - a for b, a in zip(before, after)):
-                c.probe("lru_overflow")
+            if any(b - a and len(b) >= size for b, a, size in zip(before, after, self.sizes)):
+                c.probe("lru_overflow")     # a full cache lost an entry to make room
         if len(m.ver) > 1 and any(len(m.owners(a)) > 1 for a in range(N_ADDRS)):
             c.probe("shared_address")
         if check:
@@ -1034,6 +1034,12 @@ class Run:
             obs = self.observe()
             if check:
                 self.judge(obs)
+            if not self.diverged:
+                i = self.differs(obs, self.observe())
+                if i is not None:
+                    self.viol("asking_is_pure", f"repeated_query_differs_{self.names[i]}",
+                              f"every lookup asked, then every lookup asked again: {self.labels[i]} -> {obs[i]}, then "
+                              f"something else")
             return
         if o == "q_key":
             fn, judge, name = (lambda: self.q_key(op["k"])), (lambda r: self.judge_key(op["k"], r)), "by_key"
@@ -1059,7 +1065,8 @@ class Run:
         if check:
             judge(r1)
         r2 = fn()
-        if r1 != r2:
+        if r1 != r2 and not (o == "q_addr" and r1 and r2 and {self.split(r1)[0], self.split(r2)[0]} <= set(
+                self.m.owners(op["a"]))):
             self.viol("asking_is_pure", f"repeated_query_differs_{name}", f"{describe(op)} -> {r1}, asked again -> {r2}")
 
     def op_restart(self) -> None:
